@@ -10,7 +10,7 @@ REQUIRED_REACH = {'*': ['evictions', 'tracker_rejected']}
 
 def _tweak(pf, rng):
     pf.p_identity = 0.75
-    pf.weights = {'group': 7, 'del_group': 2, 'add_app': 14}
+    pf.weights = {'group': 7, 'del_group': 2, 'add_app': 14, 'regroup': 4, 'del_server': 4, 'del_app': 6}
 
 
 run = make_run(['C05'], _tweak)
